@@ -172,6 +172,16 @@ def plan(tier, seed):
                         "scores": scores, "chunk": [c, k],
                         "mixed_only": True, "part": "two_groups",
                         "weight": len(scores) ** n // k})
+  # float32-adversarial sub-lattice: one dominant score and several scores
+  # around its float32 ulp (6e-5 at 1000), 4 and 5 axes in one group
+  adv = [1000.0, 0.125, 5e-5, 3e-5, 1e-5]
+  for rule in ["sketch_trace", "tail_rho"]:
+    for d in [4, 6]:
+      for n in [4, 5] if tier != "quick" else [4]:
+        tasks.append({"name": "%s/adv/d%d/n%d" % (rule, d, n), "rule": rule,
+                      "dims": [d], "n": n, "scores": adv, "chunk": [0, 1],
+                      "base_ranks": [2, 3, d], "layouts": ["single"],
+                      "part": "float32_adversarial", "weight": 5 ** n})
   return {
       "tasks": tasks,
       "rule": "every (dims, scores) multiset of n axes x layout x base rank "
@@ -196,8 +206,10 @@ def run_task(task):
     if task.get("mixed_only") and len({d for d, _ in axes}) < 2:
       continue
     axes_true = tuple((d, s) for d, s in axes)
-    for layout in (["single"] if n == 1 else ["single", "paired"]):
-      for base_rank in range(1, max(d for d, _ in axes) + 2):
+    for layout in task.get("layouts") or (
+        ["single"] if n == 1 else ["single", "paired"]):
+      for base_rank in task.get("base_ranks") or range(
+          1, max(d for d, _ in axes) + 2):
         key = (rule, axes_true, layout, base_rank)
         if key in seen:
           continue
